@@ -177,3 +177,17 @@ Theorem C13_library_order_free : forall splint quadS lnr isclose a x y ax axy ay
   forall g, same_group (lib_get (K:=Rops) axy g) (lib_get (K:=Rops) ayx g).
 Proof. exact lib_order_free. Qed.
 Print Assumptions C13_library_order_free.
+
+(* a library file that includes two files, in either order: when both orders load, every group ends with the same table and the
+   same valid range ("whatever the include order") *)
+Theorem C13_two_includes_order_free : forall splint quadS lnr isclose gs f1 f2 L12 L21,
+  (forall l g c, load (K:=Rops) splint quadS lnr isclose f1 = Ok l -> lib_get (K:=Rops) l g = Some c -> NoDup (map fst (i_tab c))) ->
+  (forall l g c, load (K:=Rops) splint quadS lnr isclose f2 = Ok l -> lib_get (K:=Rops) l g = Some c -> NoDup (map fst (i_tab c))) ->
+  load (K:=Rops) splint quadS lnr isclose (File gs [f1; f2]) = Ok L12 -> load (K:=Rops) splint quadS lnr isclose (File gs [f2; f1]) = Ok L21 ->
+  forall g, same_group (lib_get (K:=Rops) L12 g) (lib_get (K:=Rops) L21 g).
+Proof. exact two_includes_order_free. Qed.
+(* the keys of a loaded library are unique *)
+Theorem C13_loaded_keys_unique : forall splint quadS lnr isclose f l,
+  load (K:=Rops) splint quadS lnr isclose f = Ok l -> NoDup (map fst l).
+Proof. exact load_keys. Qed.
+Print Assumptions C13_two_includes_order_free.
